@@ -101,7 +101,11 @@ func (g *Gen) Idiom() *Program {
 			CallN("map", Fn([]string{"f"}, "", CallN("f")), CallN("f", Int(k), Arr()))}}
 	case 15:
 		// KNOWN_FINDINGS tco-by-name: the body rebinds its own name, then calls it in tail position
-		switch g.R.Intn(3) {
+		switch g.R.Intn(4) {
+		case 3:
+			return &Program{Forms: []*Node{
+				Defn("f", []string{x}, "", Cond(CallN(">", Var(x), Int(0)), CallN("f", CallN("-", Var(x), Int(1))), Int(0))),
+				Def("g", Var("f")), Defn("f", []string{x}, "", Int(99)), CallN("g", Int(k))}}
 		case 0:
 			return &Program{Forms: []*Node{
 				Defn("f", []string{x}, "", Let(false, []string{"f"}, []*Node{Fn([]string{y}, "", Int(42))},
